@@ -67,6 +67,11 @@ def check_merkle(case):
     if not cls:
         cls.append("even-levels")
     snapshot = list(ids)
+    if n >= 2 and case.get("seed", 0) % 2:
+        # history: lists of the same length / sharing a prefix are hashed first in the same process
+        cls.append("nt:after-related-lists")
+        attempt(bc.merkle_root, list(ids[:-1]) + [hashlib.sha256(ids[-1]).digest()])
+        attempt(bc.merkle_root, list(ids[:-1]))
     got = attempt(bc.merkle_root, ids)
     shape = "odd-inner-level" if _odd_inner(n) else ("odd-leaf-level" if n & 1 and n > 1 else "even-levels" if n > 1 else "single")
     f.expect(not raised(got) and got == chain.merkle_root(snapshot), f"merkle/ne-reference/{shape}", f"n={n}: {got!r}"[:160])
